@@ -648,7 +648,7 @@ type ContractSet struct {
 	Lemmas   []*Lemma
 	Axioms   []*Axiom
 	Signals  map[string]bool    // "pkg.Type.field" channels used as close-only signals
-	Guarded  map[string]string // "pkg.Type.field" -> "pkg.Type.lockfield" (same object): lock discipline, C18
+	Guarded  map[string]string  // "pkg.Type.field" -> "pkg.Type.lockfield" (same object): lock discipline, C18
 	ChanInvs map[string]*Clause // "pkg.Type.field" -> invariant over `v` of every value sent on that channel
 	Order    []string
 }
